@@ -179,12 +179,15 @@ func observeC40(c vt.Case) (ev vt.Event) {
 	ev = vt.Event{"out": []any{}, "err": "", "nin": 0}
 	defer func() {
 		if r := recover(); r != nil {
-			ev["err"] = fmt.Sprintf("panic: %v", r)
+			ev["err"] = fmt.Sprintf("panic: %v at %s", r, panicSite())
 		}
 	}()
 	aggs := vt.Ints(c["aggs"])
 	zero := vt.Bool(c["zero"])
 	series := concretiseC40(c)
+	if len(series) == 0 {
+		return nil // the random draw left no sample at all: not a case
+	}
 	tags := make([]int, len(series))
 	for s := range tags {
 		tags[s] = s + 1
